@@ -96,7 +96,9 @@ struct stripe {
     gbuf_t gptr; gbuf_t gout; gbuf_t gidx;
     uint16_t *refG16; uint8_t *refG8; const unsigned *xorp;
     long base_count, base_bytes;
+    int companion[2];                        /* other live instances of the same back end (one created before, one after) */
 };
+static struct shape stripe_companion;        /* be != 0: stripe_open surrounds the instance under test with companions of this shape */
 static char GK[320];
 
 static void set_env(const char *env)
@@ -121,9 +123,11 @@ static int stripe_open(struct stripe *s, struct shape sh, int ct, uint64_t len, 
     s->sh = sh; s->ct = ct; s->len = len; s->pat = pat; s->n = sh.k + sh.m; s->env = env;
     set_env(env);
     s->base_count = ledger_count(); s->base_bytes = ledger_bytes();
+    if (stripe_companion.k) { s->companion[0] = create_instance(&stripe_companion, ct); if (s->companion[0] <= 0) vh_violation("create-refused", "companion create(%s,k=%d,m=%d,hd=%d) returned %d", be_name(stripe_companion.be), stripe_companion.k, stripe_companion.m, stripe_companion.hd, s->companion[0]); }
     vh_op("liberasurecode_instance_create"); vh_transitions(1);
     s->desc = create_instance(&sh, ct);
     if (s->desc <= 0) { vh_violation("create-refused", "create(%s,k=%d,m=%d,hd=%d) returned %d", be_name(sh.be), sh.k, sh.m, sh.hd, s->desc); return -1; }
+    if (stripe_companion.k && s->desc > 0) { s->companion[1] = create_instance(&stripe_companion, ct); if (s->companion[1] <= 0) vh_violation("create-refused", "companion create after the instance under test returned %d", s->companion[1]); }
     tap_install(s->desc);
     s->data = gbuf_alloc(&s->gdata, len, GP_END);
     vh_fill(s->data, len, pat);
@@ -151,6 +155,7 @@ static uint8_t *frag_at(struct stripe *s, int place, int i)
 }
 static void stripe_close(struct stripe *s, int check_ledger)
 {
+    for (int c = 0; c < 2; c++) if (s->companion[c] > 0) { liberasurecode_instance_destroy(s->companion[c]); s->companion[c] = 0; }
     if (s->desc > 0) {
         if (s->ed) { vh_op("liberasurecode_encode_cleanup"); vh_transitions(1); liberasurecode_encode_cleanup(s->desc, s->ed, s->ep); }
         if (check_ledger) {
